@@ -4,6 +4,7 @@ import HvLat.Laws.WrapB
 import HvLat.Laws.VecB
 import HvLat.Laws.MapB
 import HvLat.Laws.DomPair
+import HvLat.Laws.Tri
 
 namespace HvLat
 
@@ -19,6 +20,9 @@ theorem okA_of_okB : ∀ t, okB t = true → okA t = true
   | .domPair k v, h => by
     simp only [okB, Bool.and_eq_true] at h
     simp [okA, h.1.1, h.1.2, okA_of_okB v h.2]
+  | .tri a b c, h => by
+    simp only [okB, Bool.and_eq_true] at h
+    simp [okA, okA_of_okB a h.1.1, okA_of_okB b h.1.2, okA_of_okB c h.2]
 
 theorem wf_inh : ∀ t : LTy, ∃ a, (sem t).wf a
   | .maxN b => ⟨(0 : Nat), Nat.zero_le _⟩
@@ -38,6 +42,30 @@ theorem wf_inh : ∀ t : LTy, ∃ a, (sem t).wf a
   | .domPair a b => by
     obtain ⟨x, wx⟩ := wf_inh a; obtain ⟨y, wy⟩ := wf_inh b
     exact ⟨((x, y) : Val a × Val b), wx, wy⟩
+  | .tri a b c => by
+    obtain ⟨x, wx⟩ := wf_inh a; obtain ⟨y, wy⟩ := wf_inh b; obtain ⟨z, wz⟩ := wf_inh c
+    exact ⟨((x, y, z) : Val a × Val b × Val c), wx, wy, wz⟩
+
+theorem nondeg_sound_tri (a b c : LTy) (h : nondeg (.tri a b c) = true)
+    (na : nondeg a = true → Nondeg (lat a) (sem a)) (nb : nondeg b = true → Nondeg (lat b) (sem b))
+    (nc : nondeg c = true → Nondeg (lat c) (sem c)) : Nondeg (lat (.tri a b c)) (sem (.tri a b c)) := by
+  simp only [nondeg, Bool.or_eq_true] at h
+  obtain ⟨a0, wa0⟩ := wf_inh a
+  obtain ⟨b0, wb0⟩ := wf_inh b
+  obtain ⟨c0, wc0⟩ := wf_inh c
+  rcases h with (h | h) | h
+  · obtain ⟨x, wx, hx⟩ := na h
+    exact ⟨((x, b0, c0) : Val a × Val b × Val c), ⟨wx, wb0, wc0⟩, by
+      show (Lat.tri (lat a) (lat b) (lat c)).isBot (x, b0, c0) = false
+      simp [Lat.tri, hx]⟩
+  · obtain ⟨y, wy, hy⟩ := nb h
+    exact ⟨((a0, y, c0) : Val a × Val b × Val c), ⟨wa0, wy, wc0⟩, by
+      show (Lat.tri (lat a) (lat b) (lat c)).isBot (a0, y, c0) = false
+      simp [Lat.tri, hy]⟩
+  · obtain ⟨z, wz, hz⟩ := nc h
+    exact ⟨((a0, b0, z) : Val a × Val b × Val c), ⟨wa0, wb0, wz⟩, by
+      show (Lat.tri (lat a) (lat b) (lat c)).isBot (a0, b0, z) = false
+      simp [Lat.tri, hz]⟩
 
 theorem nondeg_sound : ∀ t, nondeg t = true → Nondeg (lat t) (sem t)
   | .maxN b, h => ⟨(1 : Nat), by simp [nondeg] at h; exact h, rfl⟩
@@ -87,6 +115,7 @@ theorem nondeg_sound : ∀ t, nondeg t = true → Nondeg (lat t) (sem t)
       exact ⟨((a0, y) : Val a × Val b), ⟨wa0, wy⟩, by
         show ((lat a).isBot a0 && (lat b).isBot y) = false
         simp [hy]⟩
+  | .tri a b c, h => nondeg_sound_tri a b c h (nondeg_sound a) (nondeg_sound b) (nondeg_sound c)
 
 theorem aux_total_opt {L : Lat β} {S : Sem β} (tt : Total L S) :
     Total (Lat.withBot L) (Sem.withBot L S) ∧ Total (Lat.withTop L) (Sem.withTop S) := by
@@ -156,6 +185,17 @@ theorem lawful_all : ∀ t : LTy,
       simp only [total, Bool.and_eq_true] at ht
       exact total_domPair (ihk.1 (okA_of_okB k h.1.2)) (ihk.2.1 h.1.2) (ihk.2.2 h.1.2 h.1.1)
         (ihv.1 (okA_of_okB v h.2)) (ihv.2.2 h.2 ht.2)
+
+  | .tri a b c => by
+    have iha := lawful_all a
+    have ihb := lawful_all b
+    have ihc := lawful_all c
+    refine ⟨fun h => ?_, fun h => ?_, fun _ h => by simp [total] at h⟩
+    · simp only [okA, Bool.and_eq_true] at h
+      exact lawfulA_tri (iha.1 h.1.1) (ihb.1 h.1.2) (ihc.1 h.2)
+    · simp only [okB, Bool.and_eq_true] at h
+      exact lawfulB_tri (iha.1 (okA_of_okB a h.1.1)) (ihb.1 (okA_of_okB b h.1.2)) (ihc.1 (okA_of_okB c h.2))
+        (iha.2.1 h.1.1) (ihb.2.1 h.1.2) (ihc.2.1 h.2)
 
 theorem lawfulA_all (t : LTy) (h : okA t = true) : LawfulA (lat t) (sem t) := (lawful_all t).1 h
 theorem lawfulB_all (t : LTy) (h : okB t = true) : LawfulB (lat t) (sem t) := (lawful_all t).2.1 h
